@@ -70,6 +70,54 @@ func memoCache(c *core.Ctx, key string, field *types.Var, accessor *ssa.Function
 			}
 		}
 	}
+	// a copy of the whole struct copies the memo with it: the copy is there to be changed, so the memo is reset before the copy leaves
+	owner := ownerNamed(c, field)
+	copies := 0
+	for _, fn := range c.SrcFuncs {
+		if owner == nil || isTestHelper(c, fn) {
+			continue
+		}
+		for _, b := range fn.Blocks {
+			for _, in := range b.Instrs {
+				st, ok := in.(*ssa.Store)
+				if !ok || !types.Identical(st.Val.Type(), owner) {
+					continue
+				}
+				ld, isLoad := st.Val.(*ssa.UnOp)
+				if !isLoad {
+					continue
+				}
+				if al, isAl := ld.X.(*ssa.Alloc); isAl && al.Comment == "complit" {
+					continue // a literal: its memo field is covered by the field-store rule above
+				}
+				copies++
+				reset := false
+				for _, b2 := range fn.Blocks {
+					for _, in2 := range b2.Instrs {
+						s2, ok := in2.(*ssa.Store)
+						if !ok {
+							continue
+						}
+						fa, ok := s2.Addr.(*ssa.FieldAddr)
+						if !ok || core.FieldOf(fa) != field || fa.X != st.Addr || !isZeroValue(s2.Val) {
+							continue
+						}
+						all := true
+						for _, r := range core.Returns(fn) {
+							if r.Block() != fn.Recover && !core.Dominates(s2, r) {
+								all = false
+							}
+						}
+						if all {
+							reset = true
+						}
+					}
+				}
+				c.Check(key+"/copy-resets-memo@"+shortFn(fn), "who-may-write", reset, st.Pos(), "%s copies a whole %s, memo included; the copy's %s must be reset on every path before it is returned", shortFn(fn), owner.Obj().Name(), field.Name())
+			}
+		}
+	}
+	c.Note("%s: %d Store site(s), %d whole-struct cop(ies)", key, stores, copies)
 	c.Floor(key+"/store-sites", stores, 1)
 }
 
@@ -105,4 +153,32 @@ func isZeroValue(v ssa.Value) bool {
 		return true
 	}
 	return false
+}
+
+// ownerNamed finds the named struct type that declares field.
+func ownerNamed(c *core.Ctx, field *types.Var) *types.Named {
+	if field.Pkg() == nil {
+		return nil
+	}
+	sc := field.Pkg().Scope()
+	for _, n := range sc.Names() {
+		tn, ok := sc.Lookup(n).(*types.TypeName)
+		if !ok {
+			continue
+		}
+		named, ok := tn.Type().(*types.Named)
+		if !ok {
+			continue
+		}
+		st, ok := named.Underlying().(*types.Struct)
+		if !ok {
+			continue
+		}
+		for i := 0; i < st.NumFields(); i++ {
+			if st.Field(i) == field {
+				return named
+			}
+		}
+	}
+	return nil
 }
